@@ -34,6 +34,19 @@ def _cache_key_func(system: System, method: Callable) -> tuple[str, int]:
     return (f"{type(system).__name__}.{method}", id(system))
 
 
+def _copy_if_state_variable(value: Any, state: ChainState) -> Any:  # noqa: ANN401
+    """Return a copy of value if it is one of the variable objects of the state.
+
+    A method may return a state variable itself (for example `metric.inv @ state.mom`
+    for an identity metric). Caching such an alias would let in-place updates of the
+    variable, including ones made through another state sharing the cache entry after a
+    copy, silently change the cached value.
+    """
+    if any(value is variable for variable in state._variables.values()):
+        return copy.copy(value)
+    return value
+
+
 def cache_in_state(
     *depends_on: str,
 ) -> Callable[[SystemStateMethod], SystemStateMethod]:
@@ -65,7 +78,7 @@ def cache_in_state(
                 for dep in depends_on:
                     state._dependencies[dep].add(key)
             if key not in state._cache or state._cache[key] is None:
-                state._cache[key] = method(self, state)
+                state._cache[key] = _copy_if_state_variable(method(self, state), state)
                 if state._call_counts is not None:
                     state._call_counts[key] += 1
             return state._cache[key]
@@ -145,9 +158,9 @@ def cache_in_state_with_aux(
                 vals = method(self, state)
                 if isinstance(vals, tuple):
                     for k, v in zip(keys, vals, strict=False):
-                        state._cache[k] = v
+                        state._cache[k] = _copy_if_state_variable(v, state)
                 else:
-                    state._cache[prim_key] = vals
+                    state._cache[prim_key] = _copy_if_state_variable(vals, state)
                 if state._call_counts is not None:
                     state._call_counts[prim_key] += 1
             return state._cache[prim_key]
